@@ -66,6 +66,34 @@ def make_model(rng, n_cond):
     return ModelWeighted('wt', RDMs(basis.copy())), theta, theta @ basis, kind
 
 
+def run_make_signal(ctx):
+    """the signal generator called directly with a second-moment matrix stored row- or column-major: the caller's
+    matrix is the same afterwards (so a second draw from it, or the caller's own check against it, is not corrupted)"""
+    from rsatoolbox.simulation.sim import make_signal
+    rng = ctx.rng
+    n_cond = int(rng.integers(2, 7))
+    n_ch = n_cond + int(rng.integers(0, 8))
+    pts = rng.standard_normal((n_cond, n_cond))
+    pts = pts - pts.mean(axis=0, keepdims=True)
+    G = pts @ pts.T / n_cond + 1e-6 * np.eye(n_cond)
+    layout = gen.pick(rng, ['C', 'F'])
+    arg = np.asfortranarray(G) if layout == 'F' else np.ascontiguousarray(G)
+    sig = dict(cond_input='second_moment', model='none', layout=layout, what='make_signal')
+    wit = lambda **k: dict(G=G, n_channel=n_ch, layout=layout, **k)  # noqa: E731
+    for draw in range(2):
+        np.random.seed(int(rng.integers(2 ** 31)))
+        ok, S = ctx.guarded('exact_signal_rdm', sig, make_signal, arg, n_ch, make_exact=True, data=wit)
+        if not ok:
+            return
+        ctx.case('exact_signal_rdm', dict(sig, draw=draw))
+        if not np.array_equal(np.asarray(arg), G):
+            ctx.fail('exact_signal_rdm', dict(sig, what='input_modified'), f'make_signal altered the ({layout}-ordered) second-'
+                     f'moment matrix it was given', wit(draw=draw))
+            return
+        # (the second moment itself is judged through make_dataset above, with the tolerance the clipped-pivot LDL needs;
+        # a direct 1e-6 comparison here fired on the unchanged tree for nearly singular G and was dropped)
+
+
 def run_case(ctx):
     rng = ctx.rng
     n_cond = int(rng.integers(2, 9))
@@ -213,3 +241,5 @@ def run(ctx):
             ctx.notes.append(f'time budget reached after {it} cases')
             break
         run_case(ctx)
+        if it % 5 == 0:
+            run_make_signal(ctx)
